@@ -96,11 +96,12 @@
            (prefix-length (+ 2 (string-length prefix)))
            (separator (string->utf8 (string-append "?=" nl "\t" prefix)))
            (effective-max-col (- max-col prefix-length)))
-      (bytevector-append
-       (string->utf8 prefix)
-       (qp-encode (if (string? src) src (port->string src))
-                  start-col effective-max-col separator)
-       (string->utf8 "?=")))))
+      (utf8->string
+       (bytevector-append
+        (string->utf8 prefix)
+        (qp-encode (string->utf8 (if (string? src) src (port->string src)))
+                   start-col effective-max-col separator)
+        (string->utf8 "?="))))))
 
 ;;> Return a quoted-printable decoded representation of \var{str}.  If
 ;;> \var{mime-header?} is specified and true, _ will be decoded as as
